@@ -35,7 +35,8 @@ TRACE_PLANS = {
     "C07": [("solve:clean", 500, 8000, "hints,async,perm", False)],
     "C08": [("solve:direct", 400, 8000, "act,hints", False)],
     "C09": [("solve:clean,base,unknown", 300, 5000, "", False),
-            ("history:base,clean", 150, 3000, "", False)],
+            ("history:base,clean", 150, 3000, "", False),
+            ("cancel:small,hints", 4, 80, "async", False)],
     "C10": [("solve:small,base,hints,unknown", 60, 1500, "async,asynchints", False),
             ("solve:midconflict,fan", 40, 800, "async", False),
             ("history:base,hints", 40, 800, "async", False)],
@@ -49,6 +50,18 @@ TRACE_PLANS = {
     "C14": [("solve:softconflict", 300, 5000, "", True),
             ("solve:soft", 500, 8000, "", True),
             ("solve:softhints", 250, 4000, "", True)],
+}
+
+# design-level model checking of LazyCdcl per property: (plan, n quick, n thorough, liveness)
+MC_PLANS = {
+    "C01": ("solve:base,locks,excl,unknown,soft,hints", 40, 400, False),
+    "C02": ("solve:base,midconflict", 25, 120, False),
+    "C03": ("solve:base,midconflict,cyclic", 20, 100, False),
+    "C04": ("solve:base,hintexcl,selfcons,softlone,cyclic", 40, 300, True),
+    "C05": ("solve:base,direct,cyclic", 40, 300, False),
+    "C07": ("solve:clean", 120, 1200, False),
+    "C08": ("solve:direct", 40, 250, False),
+    "C14": ("solve:soft,softhints,softconflict", 50, 500, False),
 }
 
 # rules that also count against a property although they carry another prefix
@@ -147,6 +160,10 @@ def trace_check(prop, tier, seed, plans, t0, extra_cov=None, jobs=12, build_prof
         case_files += vlib.split_file(allc, nsh, wd, f"plan{pi}")
         os.remove(allc)
     res = vlib.run_and_validate(exe, case_files, prop, jobs=jobs)
+    mc_info, mc_viol = {}, []
+    if prop in MC_PLANS:
+        plan, nq, nt, live = MC_PLANS[prop]
+        mc_info, mc_viol = mc_lazycdcl(prop, tier, seed, plan, nq if tier == "quick" else nt, liveness=live)
     for bp, other in list(zip(build_profiles, exes))[1:]:
         # the same cases again in another build profile (debug assertions on)
         copies = []
@@ -164,7 +181,9 @@ def trace_check(prop, tier, seed, plans, t0, extra_cov=None, jobs=12, build_prof
         total_cases += 0
     extra_cov = dict(extra_cov or {})
     extra_cov["build_profiles"] = list(build_profiles)
-    return finish_trace_check(prop, tier, seed, res, t0, total_cases, extra_cov)
+    extra_cov.update(mc_info)
+    return finish_trace_check(prop, tier, seed, res, t0, total_cases, extra_cov, extra_violations=mc_viol,
+                              extra_states=mc_info.get("mc_states", 0), extra_transitions=mc_info.get("mc_transitions", 0))
 
 
 def finish_trace_check(prop, tier, seed, res, t0, total_cases, extra_cov=None, extra_violations=None,
@@ -338,3 +357,98 @@ def finish_graph_check(prop, tier, seed, t0, reps, extra_cov=None, assumptions=N
                         assumptions or ["the model's observation function projects the real object's public API faithfully",
                                         "constants bound the alphabet (see cfg files)"])
     return 1 if nviol else 0
+
+
+# ---------------------------------------------------------------------------
+# design-level model checking of the canonical solver model (LazyCdcl.tla)
+# ---------------------------------------------------------------------------
+MC_INVARIANTS = {
+    "C01": ["C01_ValidOnSat"],
+    "C02": ["C02_UnsatSound", "C02_NoSoftError", "LearntImplied"],
+    "C03": ["C03_SelfContained"],
+    "C04": ["NoDeadRequirement", "TrailConsistent"],
+    "C05": ["C05_Supported"],
+    "C07": ["C07_Preferred"],
+    "C08": ["C08_DirectBest"],
+    "C14": ["C14_SoftObliged", "C02_NoSoftError", "C01_ValidOnSat"],
+}
+
+
+def mc_lazycdcl(prop, tier, seed, plan, n, liveness=False, timeout=900):
+    """Model-checks LazyCdcl over the cases of `plan` for every admissible
+    decision order, then compares the verdicts the model can reach with the real
+    solver's verdict for the same case.  Returns a dict for the evidence and a
+    list of (message, replay path) violations."""
+    exe = vlib.build_harness("release")
+    wd = os.path.join(vlib.WORK, prop)
+    os.makedirs(wd, exist_ok=True)
+    cases = os.path.join(wd, "mc.cases")
+    cnt = vlib.gen_cases(exe, cases, plan, n, seed + 1000, "", whitebox=False, render=False, first_id=900001)
+    trace = os.path.join(wd, "mc.trace")
+    vlib.run_cases(exe, cases, trace)
+    cfg = os.path.join(vlib.SPEC, f"MC_LazyCdcl_{prop}.cfg")
+    with open(cfg, "w") as f:
+        f.write("SPECIFICATION Spec\nINVARIANTS\n  " + "\n  ".join(MC_INVARIANTS[prop] + ["Report"]) + "\n")
+        if liveness:
+            f.write("PROPERTY Termination\n")
+        f.write("CHECK_DEADLOCK FALSE\n")
+    try:
+        out, st = vlib.tlc("MC_LazyCdcl.tla", os.path.basename(cfg), os.path.join(vlib.WORK, f"md_mc_{prop}"),
+                           env_extra={"CASES": cases}, workers=8, timeout=timeout,
+                           java_opts="-Xss1g -Xmx8g -XX:+UseParallelGC -XX:ParallelGCThreads=4")
+    finally:
+        os.remove(cfg)
+    viol = []
+    if "No error has been found" not in out:
+        tail = "\n".join(l for l in out.splitlines() if not l.startswith('"'))[-2500:]
+        m = re.search(r"Invariant (\w+) is violated", out)
+        if m or "Temporal properties were violated" in out:
+            # the design itself breaks the property: report with TLC's counterexample
+            d = os.path.join(vlib.REPLAYS, prop)
+            os.makedirs(d, exist_ok=True)
+            path = os.path.join(d, "model_counterexample.txt")
+            open(path, "w").write(tail)
+            viol.append((f"the canonical model violates {m.group(1) if m else 'Termination'}", path))
+        else:
+            raise vlib.ToolError("TLC failed on MC_LazyCdcl:\n" + tail)
+    model = {}
+    for kind, f in vlib.parse_reports(out):
+        pass
+    for line in out.splitlines():
+        if line.startswith('"OUTCOME|'):
+            f = line.strip().strip('"').split("|")
+            model.setdefault(int(f[1]), set()).add((f[2], f[3]))
+    real = {}
+    cur = None
+    with open(trace) as f:
+        for line in f:
+            if '"ev":"begin"' in line:
+                cur = json.loads(line)["id"]
+            elif '"ev":"result"' in line:
+                e = json.loads(line)
+                real[cur] = (e["kind"], ",".join(str(x) for x in sorted(e["sol"])))
+    verdict_mismatch, member, multi = [], 0, 0
+    for cid, (k, sol) in real.items():
+        outs = model.get(cid, set())
+        if not outs:
+            continue
+        if k in ("sat", "unsat") and k not in {o[0] for o in outs}:
+            verdict_mismatch.append(cid)
+        if (k, sol) in outs:
+            member += 1
+        if len(outs) > 1:
+            multi += 1
+    for cid in verdict_mismatch[:1]:
+        d = os.path.join(vlib.REPLAYS, prop)
+        os.makedirs(d, exist_ok=True)
+        path = os.path.join(d, f"case{cid}_model_verdict.json")
+        json.dump({"property": prop, "case_id": cid, "real": real[cid], "model_outcomes": sorted(model[cid]),
+                   "trace": [json.loads(x) for x in vlib.extract_run(trace, cid)]}, open(path, "w"))
+        viol.append((f"real verdict {real[cid][0]} for case {cid} is not reachable in the canonical model", path))
+    info = {"mc_cases": cnt, "mc_states": st["distinct"], "mc_transitions": st["states"],
+            "mc_invariants": MC_INVARIANTS[prop] + (["Termination (liveness, weak fairness)"] if liveness else []),
+            "mc_real_outcome_in_model_set": member, "mc_cases_with_several_model_outcomes": multi,
+            "mc_verdict_mismatches": len(verdict_mismatch)}
+    log(f"[{prop}] LazyCdcl MC: {cnt} cases, {st['distinct']} states, real outcome in model set {member}/{len(real)}, "
+        f"verdict mismatches {len(verdict_mismatch)}")
+    return info, viol
